@@ -1,6 +1,7 @@
 SPECIFICATION Spec
 CONSTANT Family = "call"
 CONSTANT MaxParams = 2
+CONSTANT CallLevel = 2
 CONSTANT MutantParams = 0
 INVARIANT ResolvesRefines
 INVARIANT ErrorsPointAtMisfits
